@@ -513,6 +513,38 @@ func c02slbCase(t *testing.T, r *vk.Run, id string, n int, ws []int, mask int, p
 
 var c02names = []string{"b.gz", "GSLB_BLACKHOLE", "a.bj", "Z.hz", "c"}
 
+// c02names2: names that collide or reorder under a coarser comparison than byte-wise: case-only
+// differences (A/a, \u00c9/\u00e9), mixed case whose byte order differs from case-folded order (Bj/aj,
+// aB/ab), prefixes (ab/abc), '_' and digits at letter boundaries ('B' < '_' < 'b'), non-ASCII.
+var c02names2 = []string{"A", "a", "Bj", "aj", "ab", "abc", "aB", "a_", "a1", "\u00e9", "\u00c9"}
+
+// c02nameClass classifies a name set for violation signatures.
+func c02nameClass(names []string) string {
+	folded := make([]string, len(names))
+	seen := map[string]bool{}
+	collide := false
+	for i, nm := range names {
+		folded[i] = strings.ToLower(nm)
+		if seen[folded[i]] {
+			collide = true
+		}
+		seen[folded[i]] = true
+	}
+	if collide {
+		return "case-equal-names"
+	}
+	byBytes := append([]string(nil), names...)
+	sort.Strings(byBytes)
+	byFold := append([]string(nil), names...)
+	sort.Slice(byFold, func(i, j int) bool { return strings.ToLower(byFold[i]) < strings.ToLower(byFold[j]) })
+	for i := range byBytes {
+		if byBytes[i] != byFold[i] {
+			return "case-fold-reorders-names"
+		}
+	}
+	return "plain-names"
+}
+
 type c02sub struct {
 	name string
 	w    int
@@ -623,18 +655,46 @@ func c02gslbCase(t *testing.T, r *vk.Run, id string, subs []c02sub, perms [][]in
 		sorted = append(sorted, a)
 	}
 	sort.Strings(sorted)
+	// independent reference for the specified walk: sub-clusters in byte-wise name order, each owning
+	// a contiguous block of `weight` residues
+	nclass := c02nameClass(sorted)
+	all := make([]string, n)
+	for i, sc := range subs {
+		all[i] = sc.name
+	}
+	allClass := c02nameClass(all)
+	r.Outcome("gslb:names=" + allClass)
 	if c02contiguous(ctab, sorted, want) {
 		r.Outcome("gslb:layout=name-sorted-contiguous-blocks")
 	} else {
 		r.Outcome("gslb:layout=other")
+		ref := make([]string, 0, W)
+		for _, nm := range sorted {
+			for j := 0; j < want[nm]; j++ {
+				ref = append(ref, nm)
+			}
+		}
+		d := c02diff(ctab, ref)
+		r.Violation("subcluster:walk:not-bytewise-name-order:"+nclass, id, fmt.Sprintf("Init(%v): residue %d -> %q, the walk over sub-clusters sorted by name (byte-wise: %q) gives %q; table %q", elig, d, ctab[d], sorted, ref[d], ctab))
 	}
 	if n == 3 && len(elig) == 2 && W == 5 && c02sampleOK("B") {
 		r.Sample(map[string]interface{}{"part": "B", "sub_clusters": fmt.Sprint(subs), "residue_table": ctab})
 	}
 
 	// real Init from the full map, once per insertion order (Go picks the iteration order itself)
+	// Go randomises the map iteration start; for small maps the order is a rotation of the
+	// insertion order, so every insertion order is used, and name sets with case-equal names are
+	// loaded several times per insertion order.
+	reps := 1
+	if allClass == "case-equal-names" {
+		reps = 3
+		if n >= 4 {
+			reps = 2
+		}
+	}
 	var t0 []string
-	for pi, p := range perms {
+	for pi := 0; pi < len(perms)*reps; pi++ {
+		p := perms[pi%len(perms)]
 		ord := make([]c02sub, n)
 		for j, i := range p {
 			ord[j] = subs[i]
@@ -749,6 +809,8 @@ var c02gconfs = [][]c02sub{
 	{{"b.gz", 0}, {"a.bj", 3}},
 	{{"c", 3}, {"a.bj", 1}, {"b.gz", 2}},
 	{{"Z.hz", 1}, {"a.bj", 1}, {"b.gz", -1}, {"c", 2}},
+	{{"idc_a", 2}, {"IDC_A", 1}, {"Bj", 1}},
+	{{"aj", 1}, {"Bj", 2}, {"a_", 1}, {"aB", 0}},
 }
 
 type c02built struct {
@@ -1203,33 +1265,39 @@ func TestVerifC02(t *testing.T) {
 
 	// Part B
 	maxNB, maxWB := r.Pick(3, 4), r.Pick(4, 6)
-	for n := 1; n <= maxNB; n++ {
-		perms := c02perms(n)
-		for sel := 0; sel < 1<<uint(len(c02names)); sel++ {
-			var names []string
-			for i, nm := range c02names {
-				if sel>>uint(i)&1 == 1 {
-					names = append(names, nm)
-				}
+	for pool, namePool := range [][]string{c02names, c02names2} {
+		for n := 1; n <= maxNB; n++ {
+			perms := c02perms(n)
+			maxW := maxWB
+			if pool == 1 && n >= 4 {
+				maxW = 3
 			}
-			if len(names) != n {
-				continue
+			for sel := 0; sel < 1<<uint(len(namePool)); sel++ {
+				var names []string
+				for i, nm := range namePool {
+					if sel>>uint(i)&1 == 1 {
+						names = append(names, nm)
+					}
+				}
+				if len(names) != n {
+					continue
+				}
+				c02enum(n, -1, maxW, func(ws []int) {
+					idx++
+					if !mine(idx) || r.Expired("part B") {
+						return
+					}
+					subs := make([]c02sub, n)
+					for i := range names {
+						subs[i] = c02sub{names[i], ws[i]}
+					}
+					id := vk.Key("gslb", subs)
+					if !r.Case(id) {
+						return
+					}
+					guard(id, c02total(subs) > 0, func() { c02gslbCase(t, r, id, subs, perms) })
+				})
 			}
-			c02enum(n, -1, maxWB, func(ws []int) {
-				idx++
-				if !mine(idx) || r.Expired("part B") {
-					return
-				}
-				subs := make([]c02sub, n)
-				for i := range names {
-					subs[i] = c02sub{names[i], ws[i]}
-				}
-				id := vk.Key("gslb", subs)
-				if !r.Case(id) {
-					return
-				}
-				guard(id, c02total(subs) > 0, func() { c02gslbCase(t, r, id, subs, perms) })
-			})
 		}
 	}
 
@@ -1252,7 +1320,7 @@ func TestVerifC02(t *testing.T) {
 		guard("probe", false, func() { c02correlationProbe(t, r) })
 	}
 
-	r.Set("bounds", fmt.Sprintf("A: <=%d backends (thorough also 5 with w<=2), configured weight -1..%d, every availability subset, all n! orders (availability also changed after first use for the identity and reversed order), Update histories add/reweight/remove for every order, and (n<=4, w<=3) same-count replacement of every non-empty subset of the final backends by other addr:port values, with and without reweighting the survivors, always after a sticky Balance; residues mod 100*W fully covered (2 keys/residue canonical). B: <=%d sub-clusters out of %d names (incl. GSLB_BLACKHOLE), weight -1..%d, Init once per insertion order, Reload add-one(each)/reweight/remove; residues mod W fully covered (4 keys/residue). C: %d gslb configs x %d backend templates x %d orderings x sticky on/off x %d keyed request shapes x 2 distractor variants x every residue mod lcm(W, 100*W_sub...); plus BackendReload histories (sticky requests, then same-count replacement of every non-empty subset per sub-cluster +/- reweight) for 2 request shapes",
-		maxNA, maxWA, maxNB, len(c02names), maxWB, len(c02gconfs), len(c02tmpls), nvar, len(c02shapes)))
+	r.Set("bounds", fmt.Sprintf("A: <=%d backends (thorough also 5 with w<=2), configured weight -1..%d, every availability subset, all n! orders (availability also changed after first use for the identity and reversed order), Update histories add/reweight/remove for every order, and (n<=4, w<=3) same-count replacement of every non-empty subset of the final backends by other addr:port values, with and without reweighting the survivors, always after a sticky Balance; residues mod 100*W fully covered (2 keys/residue canonical). B: <=%d sub-clusters out of %d names (incl. GSLB_BLACKHOLE) and out of a second pool of %d names that collide/reorder under case folding (A/a, Bj/aj, ab/abc, aB/a_/a1, non-ASCII; 4 names: w<=3), weight -1..%d, reference walk = byte-wise name order, Init once per insertion order (x3, 4 names x2, when names are case-equal), Reload add-one(each)/reweight/remove; residues mod W fully covered (4 keys/residue). C: %d gslb configs x %d backend templates x %d orderings x sticky on/off x %d keyed request shapes x 2 distractor variants x every residue mod lcm(W, 100*W_sub...); plus BackendReload histories (sticky requests, then same-count replacement of every non-empty subset per sub-cluster +/- reweight) for 2 request shapes",
+		maxNA, maxWA, maxNB, len(c02names), len(c02names2), maxWB, len(c02gconfs), len(c02tmpls), nvar, len(c02shapes)))
 	r.Set("map_order_note", "BalanceGslb.Init/Reload and BalanceRR.Update range over Go maps; the iteration order cannot be chosen from outside. Init is run once per insertion order and must give one table; Reload/Update histories with exactly one new element give a deterministic unsorted pre-sort list.")
 }
